@@ -21,6 +21,7 @@ fn main() {
         "codec" => formats::cmd_codec(rest),
         "reasm" => formats::cmd_reasm(rest),
         "roundtrip" => formats::cmd_roundtrip(rest),
+        "mmap-run" => formats::cmd_mmap_run(rest),
         "sink-modes" => formats::cmd_sink_modes(rest),
         "sink-child" => formats::cmd_sink_child(rest),
         "sink-crash" => formats::cmd_sink_crash(rest),
